@@ -128,14 +128,8 @@ def rule_sinks(ck: Check, repo: Repo, cg: CallGraph, ot: OrderTaint) -> None:
     r.instance("copyright-text-sorted", {"sorted": cp})
     if not cp:
         r.violation("reuse.report.FileReport.generate", "S5: FileCopyrightText joins notices without sorting", "", repo.loc(fr))
-    bom = repo.func("reuse.report.ProjectReport.bill_of_materials")
-    bs = ast.unparse(bom)
-    for frag, what in (("sorted(self.file_reports, key=lambda x: x.name)", "file sections"), ("sorted(report.licenses_in_file)", "LicenseInfoInFile"),
-                       ("sorted(self.licenses.items())", "extracted licences")):
-        r.instance(f"bom-sorted:{what}", {"present": frag in bs})
-        if frag not in bs:
-            r.violation("reuse.report.ProjectReport.bill_of_materials", f"S5: {what} are emitted in an unordered order",
-                        f"expected {frag}", repo.loc(bom))
+    # the ORDER of the entries of the SPDX document (file sections, LicenseInfoInFile lines, extracted licences) is outside the
+    # property ("identical up to ordering of entries"): no clause on it
 
 
 def rule_pool(ck: Check, repo: Repo, rid: str = "R2") -> None:
@@ -177,6 +171,7 @@ def rule_pool(ck: Check, repo: Repo, rid: str = "R2") -> None:
     # copies it wholesale with attrs.evolve / copy.copy) there is nothing to lose here - R6 decides what it may do to it
     builds_copy = any(isinstance(c, ast.Call) and ast.unparse(c.func) == "Project" for c in ast.walk(init))
     r.instance("worker-copy", {"hand_made_copy": builds_copy})
+    s2 = s2.replace("licenses=project.licenses,", "licenses=project.licenses.copy(),").replace("licenses=dict(project.licenses)", "licenses=project.licenses.copy()")   # sharing the dictionary loses nothing
     for frag in (("licenses=project.licenses.copy()", "license_map=project.license_map", "vcs_strategy=project.vcs_strategy",
                   "new_project.licenses_without_extension = project.licenses_without_extension") if builds_copy else ()):
         r.instance(f"worker-copy:{frag[:30]}", {"present": frag in s2})
